@@ -63,6 +63,13 @@ def run(ctx):
                 if big >= 800:
                     cases.append({"fn": "qspp", "poly": Q.cplx_hex(pre, pim), "complex": True, "signal_operator": "Wx", "measurement": "z",
                                   "tolerance": hexf(tol), "kind": "bigcoef", "mode": "achievable", "perturb": hexf(tol * big * 0.2), "timeout": 300})
+        # corners whose imaginary parts are all below 1e-6 (a global phase of 1e-7 on a real corner), as list / ndarray, at tight tolerance
+        for d in ((2, 3, 5) if quick else range(1, 9)):
+            for e_ in (4e-7, 1e-7):
+                ph = [e_ / (2 ** max(0, d - 2))] + [0.0] * d
+                pre, pim = Q.corner_of_phases(ph)
+                cases.append({"fn": "qspp", "poly": Q.cplx_hex(pre, pim), "complex": True, "signal_operator": "Wx", "measurement": "z",
+                              "tolerance": hexf(rng.choice([1e-9, 1e-10])), "kind": "nearly-real", "mode": "achievable", "timeout": 300})
         # slightly mis-scaled corners (|P(1)| within 1e-3 of 1) at tight tolerances: unachievable, must raise
         for d in ([2, 3, 5, 8] if quick else range(1, 13)):
             for f in (1.0005, 0.9995):
